@@ -340,6 +340,25 @@ func main() {
 		}
 	}
 	strs = append(strs, shapedStrs...)
+	// runs: every alphabet symbol repeated 1..300 times (a length or growth counter that wraps or switches strategy
+	// at 64, 128, 256 ...), and around the 4 KiB / 64 KiB buffer sizes, alone and followed by a breakout attempt
+	runs := 0
+	for _, a := range alpha {
+		var counts []int
+		for n := 4; n <= 300; n++ {
+			counts = append(counts, n)
+		}
+		counts = append(counts, 1023, 1024, 1025, 4095, 4096, 4097, 8192, 65535, 65536, 65537)
+		for _, n := range counts {
+			r := strings.Repeat(a, n)
+			strs = append(strs, r)
+			runs++
+			if n <= 300 {
+				strs = append(strs, r+"\"><img src=x onerror=alert(1)>", "<"+r+"'>")
+				runs += 2
+			}
+		}
+	}
 	parallel(len(strs), func(i int) {
 		for _, k := range sinks {
 			checkOne(k, strs[i])
@@ -438,6 +457,7 @@ func main() {
 	run.Cov["alphabet_strings"] = vlib.SeqCount(len(alpha), maxLen)
 	run.Cov["alphabet_max_len"] = maxLen
 	run.Cov["shaped_strings"] = len(shapedStrs)
+	run.Cov["repeated_symbol_runs"] = runs
 	run.Cov["scalar_values_per_sink"] = 0x110000 - 0x800
 	run.Cov["scalar_sinks"] = len(scalarSinks)
 	run.Cov["invalid_utf8_inputs"] = invalid
